@@ -236,15 +236,34 @@ fn c11_c12(args: &Args, prop: &'static str) -> ! {
         cx.case("member", &format!("interface a.b\n{}", m));
     });
     // (5) trivia insertion and token mutations
-    let trivia = [" ", "\t", "\n", "\r\n", "\r", "\u{2028}", "# c\n", "#c"];
+    // every whitespace character of the grammar on its own, comments ended by each of the five line ends, and
+    // ordered pairs of trivia (documentation is the trimmed trivia in front of a member: what surrounds a comment matters)
+    let mut trivia: Vec<String> = TRIM.iter().map(|c| c.to_string()).collect();
+    for t in ["\t", "\r\n", "# c\n", "# c\r\n", "# c\r", "# c\u{2028}", "# c\u{2029}", "#c", "#\n", "# \u{e9}\n", "#\u{20ac} \n", "# x\u{1F600}\r\n", "#\u{1F600}"] {
+        trivia.push(t.to_string());
+    }
+    let pair_set: Vec<&str> = if thorough {
+        trivia.iter().map(|s| s.as_str()).collect()
+    } else {
+        vec![" ", "\t", "\n", "\r", "\u{2028}", "\u{2029}", "\u{feff}", "\u{180e}", "\u{a0}", "# c\n", "# d\u{2028}", "# e\r", "#\n", "# \u{20ac}\n"]
+    };
     for vt in VALID_TEXTS {
         let toks = tokenize(vt);
         for i in 0..=toks.len() {
-            for t in trivia {
+            for t in &trivia {
                 let mut s: String = toks[..i].concat();
                 s.push_str(t);
                 s.push_str(&toks[i..].concat());
                 cx.case("trivia", &s);
+            }
+            for t1 in &pair_set {
+                for t2 in &pair_set {
+                    let mut s: String = toks[..i].concat();
+                    s.push_str(t1);
+                    s.push_str(t2);
+                    s.push_str(&toks[i..].concat());
+                    cx.case("trivia2", &s);
+                }
             }
         }
         for i in 0..toks.len() {
@@ -379,6 +398,7 @@ fn c11_c12(args: &Args, prop: &'static str) -> ! {
         }
         // nesting depth
         let depths: Vec<usize> = if thorough { (1..=200).collect() } else { vec![1, 2, 3, 10, 50, 100, 150, 199, 200] };
+        let mut gave_up = false;
         for d in depths {
             let shapes: Vec<String> = vec![
                 format!("{}int", "[]".repeat(d)),
@@ -390,6 +410,25 @@ fn c11_c12(args: &Args, prop: &'static str) -> ! {
             ];
             for s in shapes {
                 let text = format!("interface a.b\nmethod A(x: {}) -> ()\n", s);
+                if gave_up {
+                    continue;
+                }
+                if cx.replay.is_none() || cx.replay.as_ref().map(|r| r["text"].as_str() == Some(&text)).unwrap_or(false) {
+                    // termination: these texts parse in about a millisecond; a parse that has not returned after 20 s
+                    // (four orders of magnitude) is reported as not terminating, and the family stops there
+                    let (tx, rx) = std::sync::mpsc::channel();
+                    let t2 = text.clone();
+                    let _ = std::thread::Builder::new().stack_size(64 << 20).spawn(move || {
+                        let _ = run_real(&t2);
+                        let _ = tx.send(());
+                    });
+                    if rx.recv_timeout(std::time::Duration::from_secs(20)).is_err() {
+                        cx.rep.eval(Some(&format!("nesting-time:{}", text)));
+                        cx.rep.violation("C12/does-not-terminate", &format!("parsing a definition with type nesting depth {} did not return within 20 s", d), json!({"family": "nesting", "text": text}));
+                        gave_up = true;
+                        continue;
+                    }
+                }
                 cx.case("nesting", &text);
                 // again on a small (2 MiB) thread stack
                 if cx.args.mine(cx.idx) && cx.replay.is_none() {
@@ -469,10 +508,34 @@ fn print_idl(ifdoc: &[&str], name: &str, members: &[GenMember], style: usize) ->
         _ => ("\n", " ", false),
     };
     let with_docs = style != 0;
+    // styles 9 and 10: documentation with multi-byte characters on every line, comment lines indented with the
+    // grammar's Unicode blanks, trailing blanks and tabs inside comment lines
+    let respell = |lines: &[String]| -> Vec<String> {
+        let mut v: Vec<String> = vec![];
+        for (i, l) in lines.iter().enumerate() {
+            match style {
+                9 => v.push(match i % 3 {
+                    0 => format!("{} \u{fc}n\u{ef}", l),
+                    1 => format!("\u{3000}{} \u{2013} \u{20ac}", l),
+                    _ => format!("\u{a0}\u{a0}{}\u{1F600}", l),
+                }),
+                10 => v.push(match i % 3 {
+                    0 => format!("{} \t", l),
+                    1 => format!("  {}\t x  ", l),
+                    _ => format!("\t{}", l),
+                }),
+                _ => v.push(l.clone()),
+            }
+        }
+        if style == 9 && !v.is_empty() {
+            v.push("# \u{2461} last line \u{e9}".into());
+        }
+        v
+    };
     let mut s = String::new();
     if with_docs {
-        for d in ifdoc {
-            s += d;
+        for d in respell(&ifdoc.iter().map(|d| d.to_string()).collect::<Vec<_>>()) {
+            s += &d;
             s += nl;
         }
     }
@@ -482,8 +545,8 @@ fn print_idl(ifdoc: &[&str], name: &str, members: &[GenMember], style: usize) ->
             s += nl;
         }
         if with_docs {
-            for d in &m.doc {
-                s += d;
+            for d in respell(&m.doc) {
+                s += &d;
                 s += nl;
             }
         }
@@ -576,7 +639,7 @@ fn c10_check(text: &str, widths: &[usize], rep: &mut Report, case: &Value) -> us
 }
 
 fn c10(args: &Args) -> ! {
-    let mut rep = Report::new("C10", "interface definitions built from a menu of 13 members (struct/enum typedefs, methods, errors; 0-5 fields; nested structs/enums 3 deep; names of length 1..40 so that every fit/no-fit threshold is crossed): every ordered selection of 1-2 members and the triples whose kinds differ (quick: triples in 3 styles at even widths) x 9 trivia styles (minimal, blank lines+docs, CRLF, CR, U+2028, tabs, wide spacing, comments/newlines inside parentheses, trailing comment) x every width 0..=220 plus {1000, usize::MAX/4}; oracle: the formatted text parses to the same canonical definition (name, docs, per-kind member order, names, types), formatting it again is byte-identical, the colored rendering minus escape sequences equals the plain one, Display == get_multiline(0,80); non-trivial = distinct (text, layout actually produced)");
+    let mut rep = Report::new("C10", "interface definitions built from a menu of 13 members (struct/enum typedefs, methods, errors; 0-5 fields; nested structs/enums 3 deep; names of length 1..40 so that every fit/no-fit threshold is crossed): every ordered selection of 1-2 members and the triples whose kinds differ (quick: triples in 3 styles at even widths) x 11 trivia styles (minimal, blank lines+docs, CRLF, CR, U+2028, tabs, wide spacing, comments/newlines inside parentheses, trailing comment, multi-line documentation with multi-byte characters and Unicode-blank indentation, documentation with trailing blanks and tabs) x every width 0..=220 plus {1000, usize::MAX/4}; oracle: the formatted text parses to the same canonical definition (name, docs, per-kind member order, names, types), formatting it again is byte-identical, the colored rendering minus escape sequences equals the plain one, Display == get_multiline(0,80); non-trivial = distinct (text, layout actually produced)");
     colored::control::set_override(true);
     let menu = member_menu();
     let mut widths: Vec<usize> = (0..=220).collect();
@@ -615,13 +678,13 @@ fn c10(args: &Args) -> ! {
         }
     }
     for s in sel {
-        for style in 0..9 {
+        for style in 0..11 {
             idx += 1;
             if !args.mine(idx) {
                 continue;
             }
-            // quick: all styles for singles and pairs, styles 1,2,7 for triples
-            if !args.thorough() && s.len() > 2 && ![1usize, 2, 7].contains(&style) {
+            // quick: all styles for singles and pairs, styles 1,2,7,9 for triples
+            if !args.thorough() && s.len() > 2 && ![1usize, 2, 7, 9].contains(&style) {
                 continue;
             }
             let ms: Vec<GenMember> = s.iter().map(|i| menu[*i].clone()).collect();
